@@ -4,7 +4,9 @@ from props.progs import replay  # noqa
 
 GEN = 'call'
 RULE = ("programs with 1–4 methods of arity 0–3 (bodies display their name and arguments, call earlier methods), a recursive method "
-        "(depth 0…300), a type with default properties (one a list), optional constructor, methods using 其 and returning 其自身; calls "
+        "(depth 0…300), recursion through an argument of a 2–3-argument call (the recursive call at a random argument position of a "
+        "position-sensitive combiner: plain method, method of an object through 其自身, constructor call building a linked chain; "
+        "Ackermann's function), a type with default properties (one a list), optional constructor, methods using 其 and returning 其自身; calls "
         "with planted display calls in arguments (evaluation order, once), right and wrong arities, 得到, chains, unknown methods and "
         "properties; a method of one object calling a method of a linked object that handles a failure (抛出 / 1/0 / unknown method) "
         "raised 0–3 calls below its handler, then reading and writing its own 其横; all objects' properties displayed after each object "
